@@ -442,6 +442,12 @@ def route_failures(orig, steps, pre, cat):
         add('foreign-column', 'fetch-identifier', ['in-cte-definition'] if under else [], f'identifier {parts} in the query of step {st_} belongs to '
                                                       f'another database')
     owners = column_owners(orig, cat)
+    # the planner of a time-series join writes the order / group columns of the model into the queries for the joined
+    # table on its own: such a mention does not come from the statement's database.table.column
+    for p_, m_, ts_ in MODELS:
+        if ts_ and any(r[1] == p_ and r[2][0].lower() == m_ for r in exp_models):
+            for c_ in [ts_['order_by_column']] + list(ts_['group_by_columns']):
+                owners.pop(c_, None)
     if owners:
         tab_names = {str(i.parts[-1]) for i, _, _ in R.table_refs(orig)}
         for s in R.all_steps(steps):
